@@ -82,7 +82,7 @@ OBJSIM = {
 RULES = {
     "C03": "seeded histories (Mantis set_key/set_tweak/swap_modes/crypt; Skinny single-block; parallel ECB on every back end, 0-40 blocks); every block/parallel call is followed by the inverse call through the library; a case is distinct+non-trivial per (object kind, back end, operation, object state, size class) actually executed against the library",
     "C04": "seeded tweak histories (0-50 changes; values random/repeated/zero/one-bit-away/NULL/short) on tweaked key schedules and through the CTR tweak API on every back end; after each change the schedule is compared field-wise with one keyed afresh with only the latest tweak, and every block with the specification model (TK1=tweak); distinct+non-trivial per (kind, back end, op, state, size class)",
-    "C05": "seeded CTR streams per cipher x back end: key/tweak set, counter default/short/NULL/carry-chain/wrap, 1-40 fragments biased to block and SIMD-batch boundaries, several packets per object, random buffer placement, in place or not; output compared byte for byte with input xor E(c+i) computed with the scalar single-block function; distinct+non-trivial per (kind, back end, op, state incl. buffered-keystream class, size class)",
+    "C05": "seeded CTR streams per cipher x back end: key/tweak set, counter default/short/NULL/carry-chain/wrap, 1-40 fragments biased to block and SIMD-batch boundaries, several packets per object, random buffer placement, in place or not; every fourth run is the packet protocol of doc/using.dox (sequence number in the counter or in the tweak) between a sender and a receiver object on independently drawn hosts over a transport that drops, duplicates and reorders packets, the receiver being fed the sender's actual ciphertext in its own fragmentation and required to restore the plaintext; output compared byte for byte with input xor E(c+i) computed with the scalar single-block function; distinct+non-trivial per (kind, back end, op, state incl. buffered-keystream class, size class)",
     "C06": "one seeded free history (incl. re-keying and tweak changes inside a batch, invalid calls, cleanup/re-init) executed on 2-3 simulated hosts whose CPU models select different back ends; every return value and output byte compared across hosts; distinct+non-trivial per (kind, back end, op, state, size class)",
     "C07": "parallel-ECB objects of the three ciphers on every simulated host; block counts enumerated 0..3*batch+3 by run index plus random follow-ups; every block compared with the scalar single-block function on a separately keyed schedule; distinct+non-trivial per (kind, back end, op, state, size class)",
     "C09": "every public function with buffer arguments; each pointer placed independently: end-flush or start-flush against a PROT_NONE page or at alignment 0-63 inside a verified junk slab; single-block output = input + d, d in -(bs-1)..(bs-1); bulk calls in place; result compared with the model computed from a private copy of the input",
@@ -100,7 +100,7 @@ RULES = {
 EXPECT_PROBES = {
     "C03": ["rtrip.block", "rtrip.parallel", "tweak.null"],
     "C04": ["tweak.null", "tweak.short", "tweak.same-value-again", "tweak-change.inside-batch", "counter.null"],
-    "C05": ["ctr.carry>=2", "ctr.carry>=half", "ctr.wrap", "ctr.wrap-inside-simd-batch", "counter.short", "counter.null", "counter.length-0", "frag.ends-on-batch-boundary",
+    "C05": ["packet.fragment-delivered", "ctr.carry>=2", "ctr.carry>=half", "ctr.wrap", "ctr.wrap-inside-simd-batch", "counter.short", "counter.null", "counter.length-0", "frag.ends-on-batch-boundary",
             "frag.ends-one-before-batch-boundary", "frag.ends-one-after-batch-boundary", "frag.zero-length.buffer-empty", "frag.zero-length.buffer-half-used", "counter.set-with-keystream-left", "frag.in-place"],
     "C06": ["rekey.inside-batch.whole-blocks-consumed", "rekey.inside-batch.inside-a-block", "rekey.at-batch-boundary", "tweak-change.inside-batch"],
     "C10": ["key.partial-length"],
